@@ -17,3 +17,6 @@ def check(ck):
     H.check_version_taint(ck, "C01.R7")
     H.check_did_change(ck, "C01.R8")
     H.check_resolver_closures(ck, "C01.R9")
+    ck.rule("C01.R10", "bindings: every symbol a function uses has its own watcher (rules are distinct per symbol), and which symbol "
+                       "is bound to which object is visible in the digest", 4)
+    H.check_bindings(ck, "C01.R10")
